@@ -37,7 +37,9 @@ def all_urls(tree, host):
 
 
 class FtpTreeServer:
-    def __init__(self, h, net, tree, host='ftp.test', ip='10.9.0.1', mlsd=True):
+    def __init__(self, h, net, tree, host='ftp.test', ip='10.9.0.1', mlsd=True, faults=None):
+        self.faults = faults or {}      # n-th command received (all sessions) -> 'rst' | 'fin' | ('reply', bytes) | 'data_rst' | 'stall'
+        self.ncmd = 0
         self.h = h
         self.net = net
         self.tree = tree
@@ -103,6 +105,23 @@ class _Ctl:
         srv = self.srv
         verb, _, arg = line.partition(' ')
         v = verb.upper()
+        fault = srv.faults.get(srv.ncmd)
+        srv.ncmd += 1
+        self.data_fault = None
+        if fault is not None:
+            srv.h.r.faults['ftp_crawl_fault.%s' % (fault if isinstance(fault, str) else fault[0])] += 1
+            if fault == 'rst':
+                self.conn.reset()
+                return
+            if fault == 'fin':
+                self.conn.finish()
+                return
+            if fault == 'stall':
+                return
+            if isinstance(fault, tuple):
+                self.conn.send(fault[1])
+                return
+            self.data_fault = fault
         if v == 'USER':
             self.say(331, 'password please')
         elif v == 'PASS':
@@ -163,6 +182,12 @@ class _Ctl:
         self.pending = None
         dc = self.data_conn
         self.say(150, 'opening data connection')
+        if getattr(self, 'data_fault', None) == 'data_rst':
+            if content:
+                dc.send(content[:len(content) // 2])
+            dc.reset()
+            self.say(426, 'transfer aborted')
+            return
         if content:
             dc.send(content)
         dc.finish()
